@@ -33,7 +33,13 @@ RULE = ("model kinds {Model+jacobian, Model+gradient, Model without gradient, Li
         "(wrt-first, direction-first, np.asarray) of writing the model's gradient callable and the geometry's gradient, "
         "which decide where numpy takes the CUQIarray subclass of the result from; fixed sections for the six defect "
         "classes (geometry comparison: default-vs-subclass, Discrete sizes, gradient attribute; Samples flag; 0-d output; "
-        "tag leak); rename on a distribution; argument binding.  distinct = distinct (configuration, input values); "
+        "tag leak); rename on a distribution; argument binding; ROUND 3: get_non_default_args x {every combination of parameter kinds "
+        "positional-only / positional-or-keyword / *args / keyword-only / **kwargs} x default placement x names from a pool with args/kwargs x "
+        "{def, lambda, bound method, carried _non_default_args, cuqi Model as callable} x {positional, right keyword, wrong keyword, two positionals}; "
+        "chain-rule instances {identity-type, attached unit gradient, element-wise with gradient in 3 styles, StepExpansion+gradient, KLExpansion+K^T "
+        "gradient, Image2D C / F, tuple default, Continuous2D} x {7 model kinds with a gradient}; PDEModel {identity, unit-triangular, row-permuted "
+        "scaled, parameter-dependent operator} x {observation_map or not} x 10 input forms x 6 domain geometries.  "
+        "distinct = distinct (configuration, input values); "
         "trivial = identity geometry on both sides with plain parameter input, and zero directions")
 
 F = Fraction
@@ -684,6 +690,8 @@ def coq_model(meta):
     kind = meta["mk"]
     keeps = "false" if kind.startswith("pde") else "true"
     fwd = "(mkFwd (poly_forward %s %s %s) %s)" % (qm(A), qv(cs), qv(b), keeps)
+    if kind == "linmat":
+        fwd = "(mkFwd (qmatvec %s) true)" % qm(A)       # LinearModel(matrix): lambda x: self._matrix @ x  (C12_linear_matrix_model)
     if kind.startswith("pde"):
         # PDEModel._forward_func inside the model: assemble / solve (checked Gauss-Jordan) / observe
         A0, b0, T = pde_parts(meta)
@@ -1147,6 +1155,19 @@ def forward_case(cuqi, meta, q):
                     pass
             xs = [x for x in xs if len(x) == len(meta["A"][0])]
         expr += " && pde_ops_ok %s %s %s %s" % (cnat(len(T)), cbool(bool(meta.get("pde_xdep"))), qm(T), clist([qv(x) for x in xs]))
+        base_ = meta["form"].split("=")[0]
+        if base_.startswith("samples") and obs[0] == "val" and hasattr(getattr(model, "pde", None), "rhs") and not meta.get("plan"):
+            # C12_pde_columns_are_independent: after a sample collection the PDE object holds the LAST column's system
+            A0_, b0_, _ = pde_parts(meta)
+            try:
+                fcols = [list(col) if base_ == "samplesfun" else dgs.o_par2fun(col) for col in vals]
+            except Refuse:
+                fcols = None
+            if fcols is not None and all(len(x) == len(meta["A"][0]) for x in fcols):
+                rhs_obs = [frac(float(v)) for v in np.asarray(model.pde.rhs).ravel()]
+                expr += " && check_pde_state %s %s %s %s %s %s %s %s %s" % (
+                    cbool(tol_cell(meta)), cnat(len(T)), cbool(bool(meta.get("pde_xdep"))), qm(T), qm(A0_), qv(ufs(meta["cs"])), qv(b0_),
+                    clist([qv(x) for x in fcols]), cqvec(rhs_obs))
     fail = compare(obs, exp)
     obs_s = obs
     if len(exp) > 3 and obs[0] == "val" and exp[0] == "val" and _same(obs[2], exp[2], exp[3]):
@@ -1273,6 +1294,16 @@ def chain_instance(meta):
     return dgs.has_grad and dgs.kind in ("mapped", "sub1d", "user", "step", "kl")
 
 
+def chain_instance_imgF(meta):
+    """gradient cells that are instances of C12_gradient_chain_rule_imgF (domain Image2D order F, not visual_only)"""
+    dgs, rgs = Geo(**meta["dg"]), Geo(**meta["rg"])
+    if meta["dform"] != "par" or meta["wform"] != "par" or "dpar" in meta or "wpar" in meta or meta.get("dipk") or meta.get("wipk"):
+        return False
+    if meta["mk"] not in ("jac", "dir", "linfun", "pde_gw", "pde_jw", "pde_both") or rgs.kind not in ("default1d", "cont1d", "discrete"):
+        return False
+    return dgs.kind == "image" and dgs.d.get("order", "C") == "F" and not dgs.d.get("visual")
+
+
 def gradient_case(cuqi, meta, q):
     obs, exp, refusal_ok, (dpar, wpar) = run_gradient_case(cuqi, meta)
     dgs, rgs = Geo(**meta["dg"]), Geo(**meta["rg"])
@@ -1293,6 +1324,10 @@ def gradient_case(cuqi, meta, q):
         # shows the theorem's hypotheses hold for it: geo_jac = Some _) and compared with the implementation's gradient
         A_ = [[Fraction(a) for a in row] for row in meta["A"]]
         expr += " && check_chain_rule %s %s %s %s %s %s %s" % (cbool(tol_cell(meta)), qm(A_), qv(ufs(meta["cs"])), dgs.coq(), qv(d), qv(w), cqvec(obs[2][0]))
+    if chain_instance_imgF(meta) and obs[0] == "val":
+        # C12_gradient_chain_rule_imgF: (J_F(par2fun w) P)^T d, P the permutation matrix of Image2D(order='F').par2fun
+        A_ = [[Fraction(a) for a in row] for row in meta["A"]]
+        expr += " && check_chain_rule_imgF %s %s %s %s %s %s %s" % (qm(A_), qv(ufs(meta["cs"])), cnat(dgs.d["r"]), cnat(dgs.d["c"]), qv(d), qv(w), cqvec(obs[2][0]))
     if dgs.kind == "step" and dgs.has_grad:     # hypothesis of C12_gradient_chain_step for the index family actually used
         expr += " && step_wf %s %s" % (cnat(dgs.d["nodes"]), cnatll(dgs.step_idx()))
     if meta.get("refusal_only"):      # Samples flagged as function values: only "refused" is compared, not the exception class
@@ -2439,7 +2474,7 @@ def run(ctx):
                   [["x", "po", False]], [["x", "po", False], ["y", "pk", True]], [["a", "po", False], ["x", "pk", False]],
                   [["x", "pk", True]], [], [["rest", "vp", False]], [["kw", "vk", False]],
                   [["x", "pk", False], ["args", "vp", False], ["k", "ko", True], ["kwargs", "vk", False]]]
-    for si, sig in enumerate(fixed_sigs + rand_signatures(rng)):
+    for si, sig in enumerate(fixed_sigs + [s_ for _ in range(ctx.n(1, 4)) for s_ in rand_signatures(rng)]):
         A = [[str(rng.randint(-2, 2)) for _ in range(3)] for _ in range(2)]
         req = o_required(sig)
         kwname = req[0] if req else (sig[0][0] if sig else "x")
@@ -2466,7 +2501,7 @@ def run(ctx):
 
     # ---------------- instances of C12_gradient_chain_rule: every geometry kind with a model-computed Jacobian x every model
     # kind with a gradient, plain vectors (the theorem's form) and array forms for the new linear-expansion gradient (round 3)
-    for n in [3, 4]:
+    for n in ([3, 4] if not ctx.thorough else [2, 3, 4, 5]):
         a_, b_ = rng.choice([2, -2, 4, -1]), rng.randint(-3, 3)
         aff, iaff = [b_, a_], [F(-b_, a_), F(1, a_)]
         quad = [rng.randint(-2, 2), rng.randint(-2, 2), rng.choice([1, -1, 2])]
@@ -2480,7 +2515,9 @@ def run(ctx):
                 Geo(kind="kl", nodes=n, modes=n, decay="2", normalizer="1", grad=True),
                 Geo(kind="kl", nodes=n, modes=max(1, n - 2), decay="3/2", normalizer="4", grad=True)]
         if n == 4:
-            inst += [Geo(kind="image", r=2, c=2, order="C"), Geo(kind="default2d", r=2, c=2), Geo(kind="cont2d", r=2, c=2)]
+            inst += [Geo(kind="image", r=2, c=2, order="C"), Geo(kind="default2d", r=2, c=2), Geo(kind="cont2d", r=2, c=2),
+                     Geo(kind="image", r=2, c=2, order="F"), Geo(kind="image", r=2, c=3, order="F"), Geo(kind="image", r=3, c=2, order="F"),
+                     Geo(kind="image", r=2, c=3, order="C")]
         for gi, dg in enumerate(inst):
             if not all(dg.step_idx()) if dg.kind == "step" else False:
                 continue
